@@ -1,12 +1,15 @@
 #!/bin/bash
-# usage: try_mutant.sh <seeded-name> <prop> [tier]   -- applies the seeded patch to /repo, runs the check, reverts
+# usage: try_mutant.sh <seeded-name> <prop> [tier]
+# Runs the check of <prop> against a scratch copy of /repo with the seeded change applied (VERIF_REPO); /repo itself and
+# /verif/evidence are not touched, so trials can run next to clean-tree runs and next to each other.
 name=$1; prop=$2; tier=${3:-quick}
 cd /verif
-git -C /repo diff --quiet || { echo "/repo not clean"; exit 2; }
-git -C /repo apply /verif/seeded/$name/patch.diff || exit 2
-trap 'git -C /repo checkout -- . ' EXIT
+R=$(mktemp -d /tmp/repomut.XXXXXX); E=$(mktemp -d /tmp/evmut.XXXXXX)
+trap 'rm -rf "$R" "$E"' EXIT
+rsync -a --exclude .git /repo/ "$R"/
+( cd "$R" && git apply /verif/seeded/$name/patch.diff ) || { echo "patch does not apply"; exit 2; }
 start=$(date +%s)
-./check $prop $tier > /tmp/try_${name}_$prop.out 2>&1; rc=$?
+VERIF_REPO=$R VERIF_EVIDENCE_DIR=$E ./check $prop $tier > /tmp/try_${name}_$prop.out 2>&1; rc=$?
 echo "mutant=$name check=$prop tier=$tier exit=$rc secs=$(( $(date +%s) - start )) $(grep -c '^VIOLATION' /tmp/try_${name}_$prop.out) violation-lines"
 grep -A1 '^VIOLATION' /tmp/try_${name}_$prop.out | head -4 | cut -c1-400
 [ $rc = 2 ] && tail -5 /tmp/try_${name}_$prop.out
